@@ -317,6 +317,14 @@ fn one_case(ctx: &Ctx, case: u64, l: &mut Local) {
             front.disclosures.insert(0, extra.clone());
             must_reject(l, "replay-more", 1, &front, a, n, 0);
         }
+        // a byte-identical copy of an already presented disclosure added (every position)
+        for k in 0..parts.disclosures.len().min(4) {
+            for at in [0, k + 1, parts.disclosures.len()] {
+                let mut dup = parts.clone();
+                dup.disclosures.insert(at.min(dup.disclosures.len()), parts.disclosures[k].clone());
+                must_reject(l, "replay-more", 10 + (k as u64) * 4 + at as u64, &dup, a, n, 0);
+            }
+        }
         // a forged (unreferenced) disclosure added
         let mut forged = parts.clone();
         forged.disclosures.push(model::b64e(json!(["s", "zz", 1]).to_string().as_bytes()));
